@@ -284,6 +284,9 @@ def degenerate_bounded_instance():
             init = np.stack([(lab == k).astype(float) for k in range(K)], axis=1)
         wca = inp['wca']
         res = {'model': model}
+        if inp['seed'] % 4 == 0 and (model.startswith('gmm') or model in ('vmfmm', 'cwmm')) and data != 'one-hot':
+            # positive class masses that are not normalised over the classes (the saliency-weighted weight update renormalises)
+            init = init * rng.uniform(0.5, 2.0, size=(F, 1, init.shape[-1]))
         if model == 'cacgmm':
             m = CACGMMTrainer().fit(y, initialization=init, iterations=inp['it'], weight_constant_axis=wca)
             res.update(weight=m.weight, lam=m.cacg.covariance_eigenvalues, V=m.cacg.covariance_eigenvectors, K=K)
